@@ -32,7 +32,7 @@ type c08Params struct {
 func (c08) ID() string    { return "C08" }
 func (c08) Level() string { return "exploration" }
 func (c08) Rule() string {
-	return "for every legal flow (client role: ECC, ECC with CertificateRequest, ECDHE, resumed; server role: ECC, ECC with client certificate, ECC with empty certificate, ECDHE, resumed) on both stacks: the unedited flow (control, must complete) and ALL single edits - omit, repeat, transpose adjacent, insert any kind of the alphabet (all handshake kinds, ChangeCipherSpec, warning alert, application data with and without payload) at any position - plus runs of 16 and 17 warning alerts; every sequence also with consecutive handshake messages packed into one record; thorough adds seeded double and triple edits. The scripted peer keeps transcript and keys consistent with what it sent. Oracle: the real endpoint completes iff a prefix of the received kinds (warning alerts within the tolerance removed) is exactly a legal flow. distinct = distinct (stack, role, flow, sequence); non-trivial = the edited part was delivered before the endpoint finished"
+	return "for every legal flow (client role: ECC, ECC with CertificateRequest, ECDHE, resumed; server role: ECC, ECC with client certificate under the policies require-and-verify / request / require-any, ECC with empty certificate, ECDHE, resumed) on both stacks: the unedited flow (control, must complete) and ALL single edits - omit, repeat, transpose adjacent, insert any kind of the alphabet (all handshake kinds, ChangeCipherSpec, warning alert, application data with and without payload) at any position - plus runs of 16 and 17 warning alerts; every sequence also with consecutive handshake messages packed into one record; thorough adds seeded double and triple edits. The scripted peer keeps transcript and keys consistent with what it sent. Oracle: the real endpoint completes iff a prefix of the received kinds (warning alerts within the tolerance removed) is exactly a legal flow. distinct = distinct (stack, role, flow, sequence); non-trivial = the edited part was delivered before the endpoint finished"
 }
 func (c08) Components() (real, stub []string) {
 	return []string{"tlcp/dtlcp client and server state machines (instrumented)", "session cache (resumed flows)"},
@@ -51,6 +51,8 @@ var c08ClientFlows = map[string][]string{ // what a real CLIENT receives
 var c08ServerFlows = map[string][]string{ // what a real SERVER receives
 	"ecc":             {"CH", "CKE", "CCS", "FIN"},
 	"ecc-auth":        {"CH", "CERT", "CKE", "CV", "CCS", "FIN"},
+	"ecc-req":         {"CH", "CERT", "CKE", "CV", "CCS", "FIN"}, // policy RequestClientCert, the client does send one
+	"ecc-any":         {"CH", "CERT", "CKE", "CV", "CCS", "FIN"}, // policy RequireAnyClientCert
 	"ecc-auth-nocert": {"CH", "CERT", "CKE", "CCS", "FIN"},
 	"ecdhe":           {"CH", "CERT", "CKE", "CV", "CCS", "FIN"},
 	"resumed":         {"CH", "CCS", "FIN"},
@@ -108,7 +110,7 @@ func c08List(tier string) []c08Params {
 				order := []string{"ecc", "ecc-cr", "ecdhe", "resumed"}
 				if role == "server" {
 					flows = c08ServerFlows
-					order = []string{"ecc", "ecc-auth", "ecc-auth-nocert", "ecdhe", "resumed"}
+					order = []string{"ecc", "ecc-auth", "ecc-req", "ecc-any", "ecc-auth-nocert", "ecdhe", "resumed"}
 				}
 				for _, fl := range order {
 					seqs, names := c08Edits(flows[fl])
@@ -225,11 +227,15 @@ func (c08) Run(c *Case, src *vs.Src) *Result {
 			switch p.Flow {
 			case "ecc-auth":
 				rc.Auth = 4
+			case "ecc-req":
+				rc.Auth = 1
+			case "ecc-any":
+				rc.Auth = 2
 			case "ecc-auth-nocert":
 				rc.Auth = 3
 			}
 			o.SNI = "server.test"
-			if p.Flow == "ecc-auth" || p.Flow == "ecdhe" {
+			if p.Flow == "ecc-auth" || p.Flow == "ecdhe" || p.Flow == "ecc-req" || p.Flow == "ecc-any" {
 				o.Certs, o.SigKey = ders("client_sig", "client_enc"), sm2Key("client_sig")
 			}
 			o.SessionID, o.Master = resumeID, resumeMaster
